@@ -7,6 +7,7 @@ C03 — helper lemmas: export / rebuild / copy of a datatype through its datainf
 -/
 set_option linter.unusedSectionVars false
 set_option linter.unusedVariables false
+set_option linter.unusedSimpArgs false
 namespace Frappy.Lemmas.C03Datainfo
 open FloatOps DType Frappy.Datatypes Frappy.DInfo
 open Frappy.Lemmas.C01 (median3_inside same_refl notNaN_of_finite map_ok)
@@ -150,13 +151,12 @@ end
 
 /-! ## T1 / T4: rebuild through the datainfo, copy -/
 
-/-- facts about the carrier that the rebuild of `int` / `double` needs and that neither `LawfulFloatOps`
-nor `CompatLaws` provide: `±sys.float_info.max` are canonical (`x + 0.0 = x`), and `float(±UNLIMITED)`
-does not overflow (so `IntRange.__call__` accepts every integer within `±UNLIMITED`) -/
+/-- facts about the carrier that the rebuild of a `double` needs and that neither `LawfulFloatOps` nor
+`CompatLaws` provide: the default limits `±sys.float_info.max` are canonical (`x + 0.0 = x`), so that a
+limit that compares equal (`==`) to its default *is* the default -/
 structure ConstsOK2 (F : Type) [FloatOps F] : Prop where
   neg_max_canon : addZero (neg (maxFinite : F)) = neg maxFinite
   max_canon : addZero (maxFinite : F) = maxFinite
-  ofInt_limit : ∃ a b : F, ofInt (-DType.intLimit) = some a ∧ ofInt DType.intLimit = some b
 
 /-! ### lookups in the exported object -/
 
@@ -206,10 +206,8 @@ theorem ok_bind {α β : Type} (a : α) (f : α → Except Err β) : (Except.ok 
 
 /-! ### integers -/
 
-theorem ofInt_ok (hC : ConstsOK2 F) {i : Int} (h1 : -intLimit ≤ i) (h2 : i ≤ intLimit) :
-    ∃ y : F, ofInt i = some y := by
-  obtain ⟨a, b, ha, hb⟩ := hC.ofInt_limit
-  exact CompatLaws.ofInt_between _ i _ a b ha hb h1 h2
+theorem ofInt_ok {i : Int} (h1 : -intLimit ≤ i) (h2 : i ≤ intLimit) : ∃ y : F, ofInt i = some y :=
+  CompatLaws.ofInt_intLimit i h1 h2
 
 theorem intValidate_self {lo hi i : Int} (h1 : lo ≤ i) (h2 : i ≤ hi) (h : ∃ y : F, ofInt i = some y) :
     intValidate (F := F) lo hi (.int i) = .ok i := by
@@ -220,8 +218,8 @@ theorem propNat_self {lo hi : Int} {n : Nat} (h1 : lo ≤ n) (h2 : (n : Int) ≤
     (h : ∃ y : F, ofInt (n : Int) = some y) : propNat (F := F) lo hi (.int n) = .ok n := by
   simp [propNat, intValidate_self h1 h2 h]
 
-theorem ofInt_nat_ok (hC : ConstsOK2 F) {n : Nat} (h : (n : Int) ≤ intLimit) : ∃ y : F, ofInt (n : Int) = some y :=
-  ofInt_ok hC (by unfold intLimit; omega) h
+theorem ofInt_nat_ok {n : Nat} (h : (n : Int) ≤ intLimit) : ∃ y : F, ofInt (n : Int) = some y :=
+  ofInt_ok (by unfold intLimit; omega) h
 
 /-! ### the leaves without floats -/
 
@@ -231,33 +229,33 @@ theorem leaf_bool (D : Consts F) :
   rw [getDatatype_obj D _ "bool" (by simp [dictGet_cons])]
   simp [buildNode, dictGet_cons, dictGet_nil]
 
-theorem leaf_int (D : Consts F) (hC : ConstsOK2 F) {mn mx : Int} (hwf : (DInfo.int mn mx : DInfo F).WF D) :
+theorem leaf_int (D : Consts F) {mn mx : Int} (hwf : (DInfo.int mn mx : DInfo F).WF D) :
     ∃ j, exportDatatype D (.int mn mx : DInfo F) = .ok j ∧ getDatatype D j = .ok (.int mn mx) := by
   simp only [DInfo.WF, DType.WF] at hwf
   obtain ⟨h1, h2, h3⟩ := hwf
   refine ⟨_, by rw [exportDatatype], ?_⟩
   rw [getDatatype_obj D _ "int" (by simp [dictGet_cons])]
-  have e1 := intValidate_self (F := F) (lo := -intLimit) (hi := intLimit) (i := mn) h2 (by omega) (ofInt_ok hC h2 (by omega))
-  have e2 := intValidate_self (F := F) (lo := -intLimit) (hi := intLimit) (i := mx) (by omega) h3 (ofInt_ok hC (by omega) h3)
+  have e1 := intValidate_self (F := F) (lo := -intLimit) (hi := intLimit) (i := mn) h2 (by omega) (ofInt_ok h2 (by omega))
+  have e2 := intValidate_self (F := F) (lo := -intLimit) (hi := intLimit) (i := mx) (by omega) h3 (ofInt_ok (by omega) h3)
   simp [buildNode, mkInt, arg, orDefault, ofJVal, dictGet_cons, dictGet_nil, e1, e2, h1, ok_bind]
 
-theorem leaf_string (D : Consts F) (hD : D.OK) (hC : ConstsOK2 F) {a b : Nat} {u : Bool}
+theorem leaf_string (D : Consts F) (hD : D.OK) {a b : Nat} {u : Bool}
     (hwf : (DInfo.string a b u : DInfo F).WF D) :
     ∃ j, exportDatatype D (.string a b u : DInfo F) = .ok j ∧ getDatatype D j = .ok (.string a b u) := by
   simp only [DInfo.WF] at hwf
   obtain ⟨h1, h2⟩ := hwf
   refine ⟨_, by rw [exportDatatype], ?_⟩
   rw [getDatatype_obj D _ "string" (by simp [dictGet_append, dictGet_optField, dictGet_cons])]
-  have ea := propNat_self (F := F) (lo := 0) (hi := intLimit) (n := a) (by omega) (by omega) (ofInt_nat_ok hC (by omega))
-  have eb := propNat_self (F := F) (lo := 0) (hi := intLimit) (n := b) (by omega) h2 (ofInt_nat_ok hC h2)
+  have ea := propNat_self (F := F) (lo := 0) (hi := intLimit) (n := a) (by omega) (by omega) (ofInt_nat_ok (by omega))
+  have eb := propNat_self (F := F) (lo := 0) (hi := intLimit) (n := b) (by omega) h2 (ofInt_nat_ok h2)
   have e0 : propNat (F := F) 0 intLimit (.int 0) = .ok 0 :=
     propNat_self (F := F) (lo := 0) (hi := intLimit) (n := 0) (by omega) (by unfold intLimit; omega)
-      (ofInt_nat_ok hC (by unfold intLimit; omega))
+      (ofInt_nat_ok (by unfold intLimit; omega))
   by_cases ha : a = 0 <;> by_cases hb : (b : Int) = intLimit <;> cases u <;>
     simp [buildNode, mkString, arg, ofJVal, dictGet_append, dictGet_optField, dictGet_cons, dictGet_nil,
       ea, eb, e0, ha, hb, h1, ok_bind, boolCall] <;> simp_all [ok_bind]
 
-theorem leaf_blob (D : Consts F) (hD : D.OK) (hC : ConstsOK2 F) {a b : Nat}
+theorem leaf_blob (D : Consts F) (hD : D.OK) {a b : Nat}
     (hwf : (DInfo.blob a b : DInfo F).WF D) :
     ∃ j, exportDatatype D (.blob a b : DInfo F) = .ok j ∧ getDatatype D j = .ok (.blob a b) := by
   simp only [DInfo.WF] at hwf
@@ -265,12 +263,12 @@ theorem leaf_blob (D : Consts F) (hD : D.OK) (hC : ConstsOK2 F) {a b : Nat}
   refine ⟨_, by rw [exportDatatype], ?_⟩
   rw [getDatatype_obj D _ "blob" (by simp [dictGet_append, dictGet_optField, dictGet_cons])]
   have ea := propNat_self (F := F) (lo := 0) (hi := 16777216) (n := a) (by omega) (by omega)
-    (ofInt_nat_ok hC (by unfold intLimit; omega))
+    (ofInt_nat_ok (by unfold intLimit; omega))
   have eb := propNat_self (F := F) (lo := 0) (hi := 16777216) (n := b) (by omega) (by omega)
-    (ofInt_nat_ok hC (by unfold intLimit; omega))
+    (ofInt_nat_ok (by unfold intLimit; omega))
   have e0 : propNat (F := F) 0 16777216 (.int 0) = .ok 0 :=
     propNat_self (F := F) (lo := 0) (hi := 16777216) (n := 0) (by omega) (by omega)
-      (ofInt_nat_ok hC (by unfold intLimit; omega))
+      (ofInt_nat_ok (by unfold intLimit; omega))
   by_cases ha : a = 0 <;>
     simp [buildNode, mkBlob, arg, ofJVal, dictGet_append, dictGet_optField, dictGet_cons, dictGet_nil,
       ea, eb, e0, ha, h1, ok_bind] <;> simp_all [ok_bind]
@@ -322,15 +320,15 @@ theorem leaf_enum (D : Consts F) {n : String} {ms : List (String × Int)}
 
 /-! ### containers: one step -/
 
-theorem array_step (D : Consts F) (hC : ConstsOK2 F) {j : JVal F} {e' : DInfo F} {a b : Nat}
+theorem array_step (D : Consts F) {j : JVal F} {e' : DInfo F} {a b : Nat}
     (hj : getDatatype D j = .ok e') (h1 : a ≤ b) (h2 : b ≤ 16777216) :
     getDatatype D (.obj [("type", .str "array"), ("minlen", .int a), ("maxlen", .int b), ("members", j)]) =
       .ok (.array e' a b) := by
   rw [getDatatype_obj D _ "array" (by simp [dictGet_cons])]
   have ea := propNat_self (F := F) (lo := 0) (hi := 16777216) (n := a) (by omega) (by omega)
-    (ofInt_nat_ok hC (by unfold intLimit; omega))
+    (ofInt_nat_ok (by unfold intLimit; omega))
   have eb := propNat_self (F := F) (lo := 0) (hi := 16777216) (n := b) (by omega) (by omega)
-    (ofInt_nat_ok hC (by unfold intLimit; omega))
+    (ofInt_nat_ok (by unfold intLimit; omega))
   unfold getDatatype at hj
   rw [buildNode, subOf_members D _ j (by simp [dictGet_cons])]
   simp [mkArray, arg, ofJVal, dictGet_cons, dictGet_nil, ea, eb, h1, ok_bind, hj]
@@ -412,29 +410,29 @@ theorem asClientFields_ne_nil {ms : List (String × DInfo F)} (h : ms ≠ []) : 
   | cons t ts => obtain ⟨k, t⟩ := t; simp [asClientFields]
 
 mutual
-theorem rebuild_gen (D : Consts F) (hD : D.OK) (hC : ConstsOK2 F) (hdbl : DoubleLeafOK D) (hsc : ScaledLeafOK D) :
+theorem rebuild_gen (D : Consts F) (hD : D.OK) (hdbl : DoubleLeafOK D) (hsc : ScaledLeafOK D) :
     ∀ dt : DInfo F, dt.WF D → dt.Exportable → dt.OptionalInOrder →
       ∃ j, exportDatatype D dt = .ok j ∧ getDatatype D j = .ok dt.asClient
   | .double mn mx ar rr u f, hwf, _, _ => by simpa only [asClient] using hdbl mn mx ar rr u f hwf
-  | .int mn mx, hwf, _, _ => by simpa only [asClient] using leaf_int D hC hwf
+  | .int mn mx, hwf, _, _ => by simpa only [asClient] using leaf_int D hwf
   | .scaled s mn mx ar rr u f, hwf, hex, _ => by simpa only [asClient] using hsc s mn mx ar rr u f hwf hex
   | .bool, _, _, _ => by simpa only [asClient] using leaf_bool D
   | .enum n ms, hwf, _, _ => by simpa only [asClient] using leaf_enum D hwf
-  | .string a b u, hwf, _, _ => by simpa only [asClient] using leaf_string D hD hC hwf
-  | .blob a b, hwf, _, _ => by simpa only [asClient] using leaf_blob D hD hC hwf
+  | .string a b u, hwf, _, _ => by simpa only [asClient] using leaf_string D hD hwf
+  | .blob a b, hwf, _, _ => by simpa only [asClient] using leaf_blob D hD hwf
   | .array e a b, hwf, hex, hoo => by
     simp only [DInfo.WF] at hwf
     simp only [Exportable] at hex
     simp only [OptionalInOrder] at hoo
-    obtain ⟨j, hj1, hj2⟩ := rebuild_gen D hD hC hdbl hsc e hwf.1 hex hoo
+    obtain ⟨j, hj1, hj2⟩ := rebuild_gen D hD hdbl hsc e hwf.1 hex hoo
     refine ⟨_, by rw [exportDatatype, hj1], ?_⟩
     simp only [asClient]
-    exact array_step D hC hj2 hwf.2.1 hwf.2.2
+    exact array_step D hj2 hwf.2.1 hwf.2.2
   | .tuple es, hwf, hex, hoo => by
     simp only [DInfo.WF] at hwf
     simp only [Exportable] at hex
     simp only [OptionalInOrder] at hoo
-    obtain ⟨js, hj1, hj2⟩ := rebuild_list D hD hC hdbl hsc es hwf.2 hex hoo
+    obtain ⟨js, hj1, hj2⟩ := rebuild_list D hD hdbl hsc es hwf.2 hex hoo
     refine ⟨_, by rw [exportDatatype, hj1], ?_⟩
     simp only [asClient]
     exact tuple_step D hj2 (asClientList_ne_nil hwf.1)
@@ -442,12 +440,12 @@ theorem rebuild_gen (D : Consts F) (hD : D.OK) (hC : ConstsOK2 F) (hdbl : Double
     simp only [DInfo.WF] at hwf
     simp only [Exportable] at hex
     simp only [OptionalInOrder] at hoo
-    obtain ⟨js, hj1, hj2⟩ := rebuild_fields D hD hC hdbl hsc ms hwf.2.2.2 hex hoo.2
+    obtain ⟨js, hj1, hj2⟩ := rebuild_fields D hD hdbl hsc ms hwf.2.2.2 hex hoo.2
     refine ⟨_, by rw [exportDatatype, hj1], ?_⟩
     simp only [asClient]
     exact struct_step D hj2 (asClientFields_ne_nil hwf.1)
       (by rw [asClientFields_names]; exact hoo.1) (by rw [asClientFields_names]; exact hwf.2.2.1)
-theorem rebuild_list (D : Consts F) (hD : D.OK) (hC : ConstsOK2 F) (hdbl : DoubleLeafOK D) (hsc : ScaledLeafOK D) :
+theorem rebuild_list (D : Consts F) (hD : D.OK) (hdbl : DoubleLeafOK D) (hsc : ScaledLeafOK D) :
     ∀ es : List (DInfo F), WFList D es → ExportableList es → OptionalInOrderList es →
       ∃ js, exportList D es = .ok js ∧ (convList D js).map (·.self) = (asClientList es).map Except.ok
   | [], _, _, _ => ⟨[], by rw [exportList], by simp only [convList, asClientList, List.map_nil]⟩
@@ -455,12 +453,12 @@ theorem rebuild_list (D : Consts F) (hD : D.OK) (hC : ConstsOK2 F) (hdbl : Doubl
     simp only [DInfo.WFList] at hwf
     simp only [ExportableList] at hex
     simp only [OptionalInOrderList] at hoo
-    obtain ⟨j, hj1, hj2⟩ := rebuild_gen D hD hC hdbl hsc t hwf.1 hex.1 hoo.1
-    obtain ⟨js, hjs1, hjs2⟩ := rebuild_list D hD hC hdbl hsc ts hwf.2 hex.2 hoo.2
+    obtain ⟨j, hj1, hj2⟩ := rebuild_gen D hD hdbl hsc t hwf.1 hex.1 hoo.1
+    obtain ⟨js, hjs1, hjs2⟩ := rebuild_list D hD hdbl hsc ts hwf.2 hex.2 hoo.2
     refine ⟨j :: js, by rw [exportList, hj1, hjs1], ?_⟩
     unfold getDatatype at hj2
     simp only [convList, asClientList, List.map_cons, hj2, hjs2]
-theorem rebuild_fields (D : Consts F) (hD : D.OK) (hC : ConstsOK2 F) (hdbl : DoubleLeafOK D) (hsc : ScaledLeafOK D) :
+theorem rebuild_fields (D : Consts F) (hD : D.OK) (hdbl : DoubleLeafOK D) (hsc : ScaledLeafOK D) :
     ∀ ms : List (String × DInfo F), WFFields D ms → ExportableFields ms → OptionalInOrderFields ms →
       ∃ js, exportFields D ms = .ok js ∧
         (convFields D js).map (fun kc => (kc.1, kc.2.self)) = (asClientFields ms).map (fun kt => (kt.1, Except.ok kt.2))
@@ -469,8 +467,8 @@ theorem rebuild_fields (D : Consts F) (hD : D.OK) (hC : ConstsOK2 F) (hdbl : Dou
     simp only [DInfo.WFFields] at hwf
     simp only [ExportableFields] at hex
     simp only [OptionalInOrderFields] at hoo
-    obtain ⟨j, hj1, hj2⟩ := rebuild_gen D hD hC hdbl hsc t hwf.1 hex.1 hoo.1
-    obtain ⟨js, hjs1, hjs2⟩ := rebuild_fields D hD hC hdbl hsc ts hwf.2 hex.2 hoo.2
+    obtain ⟨j, hj1, hj2⟩ := rebuild_gen D hD hdbl hsc t hwf.1 hex.1 hoo.1
+    obtain ⟨js, hjs1, hjs2⟩ := rebuild_fields D hD hdbl hsc ts hwf.2 hex.2 hoo.2
     refine ⟨(k, j) :: js, by rw [exportFields, hj1, hjs1], ?_⟩
     unfold getDatatype at hj2
     simp only [convFields, asClientFields, List.map_cons, hj2, hjs2]
@@ -482,41 +480,41 @@ theorem viaDatainfo_of (D : Consts F) {t t' : DInfo F}
   simp only [viaDatainfo, h1, h2]
 
 mutual
-theorem copy_gen (D : Consts F) (hD : D.OK) (hC : ConstsOK2 F) (hdbl : DoubleLeafOK D) (hsc : ScaledLeafOK D) :
+theorem copy_gen (D : Consts F) (hD : D.OK) (hdbl : DoubleLeafOK D) (hsc : ScaledLeafOK D) :
     ∀ dt : DInfo F, dt.WF D → dt.Exportable → copy D dt = .ok dt
   | .double mn mx ar rr u f, hwf, _ => by rw [copy]; exact viaDatainfo_of D (hdbl mn mx ar rr u f hwf)
-  | .int mn mx, hwf, _ => by rw [copy]; exact viaDatainfo_of D (leaf_int D hC hwf)
+  | .int mn mx, hwf, _ => by rw [copy]; exact viaDatainfo_of D (leaf_int D hwf)
   | .scaled s mn mx ar rr u f, hwf, hex => by rw [copy]; exact viaDatainfo_of D (hsc s mn mx ar rr u f hwf hex)
   | .bool, _, _ => by rw [copy]; exact viaDatainfo_of D (leaf_bool D)
   | .enum n ms, _, _ => by rw [copy]
-  | .string a b u, hwf, _ => by rw [copy]; exact viaDatainfo_of D (leaf_string D hD hC hwf)
-  | .blob a b, hwf, _ => by rw [copy]; exact viaDatainfo_of D (leaf_blob D hD hC hwf)
+  | .string a b u, hwf, _ => by rw [copy]; exact viaDatainfo_of D (leaf_string D hD hwf)
+  | .blob a b, hwf, _ => by rw [copy]; exact viaDatainfo_of D (leaf_blob D hD hwf)
   | .array e a b, hwf, hex => by
     simp only [DInfo.WF] at hwf
     simp only [Exportable] at hex
-    rw [copy, copy_gen D hD hC hdbl hsc e hwf.1 hex]
+    rw [copy, copy_gen D hD hdbl hsc e hwf.1 hex]
   | .tuple es, hwf, hex => by
     simp only [DInfo.WF] at hwf
     simp only [Exportable] at hex
-    rw [copy, copyList_gen D hD hC hdbl hsc es hwf.2 hex]
+    rw [copy, copyList_gen D hD hdbl hsc es hwf.2 hex]
   | .struct ms opt c, hwf, hex => by
     simp only [DInfo.WF] at hwf
     simp only [Exportable] at hex
-    rw [copy, copyFields_gen D hD hC hdbl hsc ms hwf.2.2.2 hex]
-theorem copyList_gen (D : Consts F) (hD : D.OK) (hC : ConstsOK2 F) (hdbl : DoubleLeafOK D) (hsc : ScaledLeafOK D) :
+    rw [copy, copyFields_gen D hD hdbl hsc ms hwf.2.2.2 hex]
+theorem copyList_gen (D : Consts F) (hD : D.OK) (hdbl : DoubleLeafOK D) (hsc : ScaledLeafOK D) :
     ∀ es : List (DInfo F), WFList D es → ExportableList es → copyList D es = .ok es
   | [], _, _ => by rw [copyList]
   | t :: ts, hwf, hex => by
     simp only [DInfo.WFList] at hwf
     simp only [ExportableList] at hex
-    rw [copyList, copy_gen D hD hC hdbl hsc t hwf.1 hex.1, copyList_gen D hD hC hdbl hsc ts hwf.2 hex.2]
-theorem copyFields_gen (D : Consts F) (hD : D.OK) (hC : ConstsOK2 F) (hdbl : DoubleLeafOK D) (hsc : ScaledLeafOK D) :
+    rw [copyList, copy_gen D hD hdbl hsc t hwf.1 hex.1, copyList_gen D hD hdbl hsc ts hwf.2 hex.2]
+theorem copyFields_gen (D : Consts F) (hD : D.OK) (hdbl : DoubleLeafOK D) (hsc : ScaledLeafOK D) :
     ∀ ms : List (String × DInfo F), WFFields D ms → ExportableFields ms → copyFields D ms = .ok ms
   | [], _, _ => by rw [copyFields]
   | (k, t) :: ts, hwf, hex => by
     simp only [DInfo.WFFields] at hwf
     simp only [ExportableFields] at hex
-    rw [copyFields, copy_gen D hD hC hdbl hsc t hwf.1 hex.1, copyFields_gen D hD hC hdbl hsc ts hwf.2 hex.2]
+    rw [copyFields, copy_gen D hD hdbl hsc t hwf.1 hex.1, copyFields_gen D hD hdbl hsc ts hwf.2 hex.2]
 end
 
 /-! ### float properties -/
@@ -765,5 +763,23 @@ theorem leaf_scaled (D : Consts F) (hD : D.OK) : ScaledLeafOK D := by
       simp [arg, ofJVal, dictGet_append, dictGet_optField, dictGet_cons, dictGet_nil, dictGet_scaledAbsRes_ne])
   simp only [List.append_assoc, List.cons_append, List.nil_append] at hmk
   simp [buildNode, dictGet_append, dictGet_optField, dictGet_cons, dictGet_nil, dictGet_scaledAbsRes_ne, hmk]
+
+/-! ## the theorems -/
+
+/-- T1: the datainfo of a well-formed, grid-aligned tree is rebuilt by `get_datatype` into the same tree up
+to the enum names and the `client` flags -/
+theorem rebuild_core (D : Consts F) (hD : D.OK) (hC : ConstsOK2 F) :
+    ∀ dt : DInfo F, dt.WF D → dt.Exportable → dt.OptionalInOrder →
+      ∃ j, exportDatatype D dt = .ok j ∧ getDatatype D j = .ok dt.asClient :=
+  rebuild_gen D hD (leaf_double D hD hC) (leaf_scaled D hD)
+
+/-- T4: `copy()` of a well-formed, grid-aligned tree is the tree itself -/
+theorem copy_core (D : Consts F) (hD : D.OK) (hC : ConstsOK2 F) :
+    ∀ dt : DInfo F, dt.WF D → dt.Exportable → copy D dt = .ok dt :=
+  copy_gen D hD (leaf_double D hD hC) (leaf_scaled D hD)
+
+/-- the extra carrier facts hold for the exact carrier `Rat` (non-vacuity of `ConstsOK2`) -/
+example : ConstsOK2 Rat :=
+  ⟨rfl, rfl⟩
 
 end Frappy.Lemmas.C03Datainfo
